@@ -114,6 +114,22 @@ C09_WeightZeroNeverFree ==
     phase \in {"step", "done"} => \A i \in 1..Len(table) :
         table[i].e.weight = 0 => Count(emitted, table[i].name) + forcedLeft[i] <= table[i].e.min
 
+(* ---- the counter abstraction SchedInd.tla (inductive invariant discharged by Apalache for unbounded cycles and
+        minimum counts) is an abstraction of THIS process: every state of a step maps to a state satisfying its
+        inductive invariant, and every slot of this process is a step of the abstraction ------------------------ *)
+InTable(nm) == \E i \in 1..Len(table) : table[i].name = nm
+Idx(nm) == CHOOSE i \in 1..Len(table) : table[i].name = nm
+SI == INSTANCE SchedInd WITH
+        cycles <- cycles,
+        min   <- [nm \in {"a", "b", "c"} |-> IF InTable(nm) THEN table[Idx(nm)].e.min ELSE 0],
+        due   <- [nm \in {"a", "b", "c"} |-> InTable(nm) /\ Idx(nm) \in Due(table, step)],
+        pos   <- [nm \in {"a", "b", "c"} |-> InTable(nm) /\ table[Idx(nm)].e.weight > 0],
+        left  <- [nm \in {"a", "b", "c"} |-> IF InTable(nm) /\ phase # "build" THEN forcedLeft[Idx(nm)] ELSE 0],
+        cnt   <- [nm \in {"a", "b", "c"} |-> Count(emitted, nm)],
+        phase <- phase
+C09_AbstractionInv == phase \in {"step", "done"} => SI!IndInv
+C09_AbstractionStep == [][phase = "step" => SI!Next]_vars
+
 (* ---- export of small tables with their complete allowed sets ---------------- *)
 SmallEntries == [interval : {1, 2}, weight : {0, 1, 3}, min : {0, 1}]
 SmallTables == {<<[name |-> "a", e |-> x]>> : x \in SmallEntries}
